@@ -129,8 +129,17 @@ class Check:
         cfg = os.path.join(self.tmp, 'obs_%s.cfg' % label)
         tlc.write_cfg(cfg, 'Spec', {}, invariants=['Report'])
 
-        def one(lo):
-            part = traces[lo:lo + chunk]
+        # chunks of at most `chunk` traces and roughly 30 MB of JSON (TLC's Json module fails on very large files);
+        # the size per trace is estimated from a sample
+        step = max(1, len(traces) // 200)
+        sample = traces[::step][:200]
+        avg = (sum(len(json.dumps(t)) for t in sample) / len(sample)) if sample else 1
+        per = max(1, min(chunk, int(30_000_000 / max(avg, 1))))
+        bounds = [(lo, min(lo + per, len(traces))) for lo in range(0, len(traces), per)]
+
+        def one(b):
+            lo, hi = b
+            part = traces[lo:hi]
             path = os.path.join(self.tmp, 'traces_%s_%d.json' % (label, lo))
             with open(path, 'w') as fh:
                 try:
@@ -150,7 +159,7 @@ class Check:
 
         rejected = []
         with ThreadPoolExecutor(parallel) as ex:
-            results = list(ex.map(one, range(0, len(traces), chunk)))
+            results = list(ex.map(one, bounds))
         for lo, part, r in results:
             if r.errors:
                 sys.stderr.write(r.out[-6000:])
